@@ -403,7 +403,9 @@ func Solve(frs []*FuncResult, dir string, timeoutS int, keepDir string) {
 		wg.Add(1)
 		go func(fr *FuncResult) {
 			defer wg.Done()
-			batchFirst(fr, dir, 2000)
+			if os.Getenv("GOVC_NOBATCH") == "" {
+				batchFirst(fr, dir, 2000)
+			}
 			var wg2 sync.WaitGroup
 			for _, o := range fr.Obls {
 				if o.Verdict == "proved" {
